@@ -33,12 +33,12 @@ def Canon (d : Doc) (dp : Option Nat) (f : Nat) (ty : STy) (v : TVal) : Prop := 
 budget of the `decode` entry point (3 · input length + 8) — one unit per value node and per typedef link,
 while every node occupies at least one input byte. -/
 theorem gen_roundtrip_binary (e : Endian) (dp : Option Nat) (d : Doc) (n : String) (v : TVal) (rest : Bytes) (f : Nat)
-    (hw : v.wt = true) (hc : Canon d dp f (.ref n) v) (hf : f ≤ 3 * (Binary.run e v.ops ++ rest).length + 8) :
+    (hed : EndianOk e dp) (hw : v.wt = true) (hc : Canon d dp f (.ref n) v) (hf : f ≤ 3 * (Binary.run e v.ops ++ rest).length + 8) :
     decode (binRd e dp) d n (Binary.run e v.ops ++ rest) = .ok (v, rest) := by
   unfold decode
   have hrem : (binRd e dp).remaining (Binary.run e v.ops ++ rest) = (Binary.run e v.ops ++ rest).length := rfl
   rw [hrem]
-  have := (corr_all e dp d _).1 (.ref n) v rest (.ok v) hw (projTy_mono d dp f _ hf _ v v hc)
+  have := (corr_all e dp d hed _).1 (.ref n) v rest (.ok v) hw (projTy_mono d dp f _ hf _ v v hc)
   rw [Binary.run_ops] at this ⊢
   exact this
 
